@@ -303,6 +303,45 @@ func cmdCheck(args []string) int {
 		}(i, o)
 	}
 	wg.Wait()
+	// Second chance for obligations that only timed out (no solver said sat or unknown-with-a-model): on a
+	// loaded machine a query that normally takes a second can exceed the budget. At most a handful are retried,
+	// two at a time, with twice the budget; if many obligations are undecided the tree is really broken
+	// and a retry would only cost time.
+	{
+		var late []*Obligation
+		for _, o := range all {
+			if o.Expect == "unsat" && o.Status == "undecided" && (o.Result.Verdict == "timeout" || o.Result.Verdict == "unknown") {
+				late = append(late, o)
+			}
+		}
+		if len(late) > 0 && len(late) <= 8 {
+			sem2 := make(chan struct{}, 2)
+			var wg2 sync.WaitGroup
+			for i, o := range late {
+				wg2.Add(1)
+				go func(i int, o *Obligation) {
+					defer wg2.Done()
+					sem2 <- struct{}{}
+					defer func() { <-sem2 }()
+					to := 2 * time.Duration(*timeout) * time.Second
+					qs := []string{o.Query}
+					if o.QueryInst != "" {
+						qs = append(qs, o.QueryInst)
+					}
+					for k, q := range qs {
+						r := Solve(q, smtDir, fmt.Sprintf("r%04d_%d_%s", i, k, sanitize(o.Name)), to, true)
+						if r.Verdict == "unsat" {
+							r.Solver += "/retry"
+							o.Result = r
+							o.Status = "discharged"
+							return
+						}
+					}
+				}(i, o)
+			}
+			wg2.Wait()
+		}
+	}
 	tSolve := time.Since(t0) - tLoad - tGen
 
 	// known findings
